@@ -165,7 +165,7 @@ Explain(e) == IF e.ev # "Field" THEN No("no action of the specification matches 
                         IF r.ok THEN r ELSE No("C09: " \o e.type \o ": " \o r.why)
 Init == l = 1 /\ bad = 0
 Next == /\ l <= Len(Trace)
-        /\ LET e == Trace[l] r == Explain(e) IN
+        /\ \E r \in {Explain(Trace[l])} : LET e == Trace[l] IN     \* bound once (TLC evaluates an action-level LET at every use)
              /\ Report(l, e, r)
              /\ (IF e.ev = "Field" /\ RowOf(e) # 0 THEN PrintT("COVERED " \o e.type \o "." \o e.acc) ELSE TRUE)
              /\ bad' = bad + (IF r.ok THEN 0 ELSE 1)
